@@ -636,4 +636,19 @@ theorem parse_tokens_spans (names : Nat → List Char) (P : Prog) (srcLen : Nat)
   rw [this]
   rfl
 
+/-- hypotheses satisfiable, and what `itemsSpansOf` computes: the token stream of
+`.orig x3000 / L brnzp L / .fill x0005 / .blkw 0 / .break` (the example of `Proofs/ParseProg.lean`)
+stands in reading order, and the two words of the image get the spans `brnzp L` (bytes 14 … 20) and
+`.fill x0005` (the data word's own span) -/
+example : PosOk 0
+    [⟨.dir .orig, ⟨0, 5⟩, []⟩, ⟨.lit (.hex 0x3000#16), ⟨6, 5⟩, []⟩, ⟨.label, ⟨12, 1⟩, ['L']⟩,
+     ⟨.instr (.br .nzp), ⟨14, 5⟩, []⟩, ⟨.label, ⟨20, 1⟩, ['L']⟩, ⟨.byte 5#16, ⟨22, 8⟩, []⟩,
+     ⟨.breakpoint, ⟨40, 6⟩, []⟩] := by
+  simp [PosOk, Token.isByte, endOf]
+
+example : itemsSpansOf (fun _ => ['L'])
+    [.orig 0x3000#16, .stmt (some 0) (.br 7#3 (.label 0)), .stmt none (.fill 5#16), .stmt none (.blkw 0#16), .brk]
+    [⟨0, 5⟩, ⟨6, 5⟩, ⟨12, 1⟩, ⟨14, 5⟩, ⟨20, 1⟩, ⟨22, 8⟩, ⟨40, 6⟩] = [(14, 7), (22, 8)] := by
+  decide
+
 end Lace.C01
